@@ -1,7 +1,7 @@
 SPECIFICATION Spec
 CONSTANTS
-  SplitClose = TRUE
-  SplitRelease = FALSE
+  SplitClose = FALSE
+  SplitRelease = TRUE
   WithForce = FALSE
 INVARIANTS NoLeak
 CHECK_DEADLOCK FALSE
